@@ -29,7 +29,7 @@ from .errors import CompletionCodeError, HpmError, IpmiTimeoutError
 from .msgs import create_request_by_name
 from .msgs import constants
 from .utils import check_completion_code, bcd_search, chunks
-from .utils import py3dec_unic_bytes_fix, py3_array_tobytes
+from .utils import py3_array_tobytes
 from .state import State
 from .fields import VersionField
 
@@ -489,7 +489,8 @@ class ComponentPropertyDescriptionString(ComponentProperty):
 
     def _from_rsp_data(self, data):
         descr = py3_array_tobytes(array('B', data))
-        descr = py3dec_unic_bytes_fix(descr)
+        # one character per byte: no escape sequence is interpreted
+        descr = descr.decode('latin-1')
         # strip '\x00'
         descr = descr.replace('\0', '')
         self.description = descr
